@@ -453,6 +453,22 @@ func (h *Hist) ActIntent() {
 	}
 }
 
+// ActProduceLazy: the elected pillar produces its momentum and stops (no contract receives, no contract updates):
+// confirmed calls pile up in the inboxes until a later pillar does the work.
+func (h *Hist) ActProduceLazy() {
+	if h.Dead {
+		return
+	}
+	h.C.Checkpoint()
+	if err := h.A.ProduceBare(h.C.Weighted("lazy.skip", 6, 1, 1)); err != nil {
+		h.C.Note("lazy produce failed: %v", err)
+		return
+	}
+	h.Momentums++
+	h.C.Class("momentum-by-a-pillar-that-stops-after-it")
+	h.C.Note("momentum %d (pillar stops after its momentum)", h.A.Height())
+}
+
 // RestartNode stops the producing node and starts it again on its database (keep: also on its consensus database,
 // so that consensus points are read back from storage instead of recomputed).
 func (h *Hist) RestartNode(keep bool) bool {
